@@ -360,6 +360,14 @@ func e5(w *World, r *Report) {
 	ev := needFn(r, "E-5", w, fref{pkgEVM, "EVMCtrler", "execVM"})
 	if ev != nil {
 		rs := w.findCallMatch(ev, mustRe(`^recv\.vmevm\.Reset\(core\.NewEVMTxContext\(.+\), recv\.stateDBWrapper\)$`))
+		if len(rs) != 1 {
+			// in the helper that builds and applies the message for ExecuteTrx
+			if ex := w.Method(pkgEVM, "EVMCtrler", "ExecuteTrx"); ex != nil {
+				if deep := w.evmMessageDeep(ex); deep != nil {
+					rs = w.findCallMatch(deep.Fn, mustRe(`^recv\.vmevm\.Reset\(core\.NewEVMTxContext\(.+\), recv\.stateDBWrapper\)$`))
+				}
+			}
+		}
 		r.Check(len(rs) == 1, "E-5", "execVM:reset-on-wrapper", "each transaction resets the EVM onto the wrapper", "execVM does not reset the EVM onto the wrapper", fnSite(w, ev))
 	}
 	nw := needFn(r, "E-5", w, fref{pkgEVM, "", "NewStateDBWrapper"})
